@@ -12,6 +12,65 @@ def script_for(ob, meta):
         c = max(0, min(m.get(name + '.ncols', dc), 4096))
         return r, c
     tc = {0: 'i', 1: 'd', 2: 'z'}.get(m.get('self.id', 1), 'd')
+    if fn == 'matrix_subscr' and ob.kind == 'nooverflow' and (
+            'rowstep' in ob.text or 'colstep' in ob.text):
+        return ("A = matrix(range(6), (2,3), 'd')\n"
+                "B = A[::2**40, ::2**40]\n"
+                "print('RESULT', B.size, list(B))\n", 'ubsan')
+    if fn in ('matrix_ass_subscr', 'matrix_ass_subscr_noalias',
+              'matrix_subscr') and ob.kind == 'nooverflow' and \
+            'MAT_LGT(Il)*MAT_LGT' in ob.text:
+        return ("A = matrix(0.0, (2,2))\n"
+                "try:\n"
+                "    A[[0]*65536, [0]*65536] = [1.0]\n"
+                "except TypeError as e:\n"
+                "    print('RESULT', e)\n", 'ubsan')
+    if fn in ('matrix_ass_subscr', 'matrix_ass_subscr_noalias') and \
+            ob.kind == 'extern-requires':
+        return ("A = matrix([1, 0] + [0]*6)\n"
+                "A[A] = 1000000\n"
+                "B = matrix([1, 0, 1, 0, 1, 0], (3,2))\n"
+                "B[B[:3], 0] = 1000000\n"
+                "print('RESULT done')\n", 'valgrind')
+    if fn in ('matrix_ass_subscr', 'matrix_ass_subscr_noalias',
+              'matrix_subscr') and ob.kind in ('footprint', 'index-address') \
+            and (fn != 'matrix_subscr' or 'pyint(arg0)' not in m):
+        # oracle: the documented element, and only it, is read / written
+        return ('''
+def wrap(i, m): return i if i >= 0 else m + i
+bad = []
+for (r, c) in ((2, 5), (5, 2), (1, 3), (3, 1)):
+    for i in range(-r, r):
+        for j in range(-c, c):
+            want = wrap(i, r) + wrap(j, c) * r
+            for form in ('int', 'list', 'matrix', 'mixed'):
+                A = matrix(0.0, (r, c))
+                I = {'int': i, 'list': [i], 'matrix': matrix([i]),
+                     'mixed': [i]}[form]
+                J = {'int': j, 'list': [j], 'matrix': matrix([j]),
+                     'mixed': j}[form]
+                for rhs in (7.0, matrix([7.0])):
+                    A = matrix(0.0, (r, c))
+                    A[I, J] = rhs
+                    got = [k for k in range(r * c) if A[k] != 0.0]
+                    if got != [want]:
+                        bad.append(('set', (r, c), form, i, j, got, want))
+                B = matrix([float(k) for k in range(r * c)], (r, c))
+                v = B[I, J]
+                v = v if isinstance(v, float) else v[0]
+                if v != float(want):
+                    bad.append(('get', (r, c), form, i, j, v, want))
+    n = r * c
+    for k in range(-n, n):
+        for K in (k, [k], matrix([k])):
+            A = matrix(0.0, (r, c))
+            A[K] = 7.0
+            got = [q for q in range(n) if A[q] != 0.0]
+            if got != [wrap(k, n)]:
+                bad.append(('set1', (r, c), k, got))
+print('RESULT', bad[:5])
+assert not bad, 'indexed access touched another element: %r' % (bad[:3],)
+''', 'assert')
     if fn == 'matrix_subscr':
         r, c = shape('self')
         i = m.get('pyint(arg0)')
@@ -109,59 +168,6 @@ assert not bad, 'operator rules violated: %r' % (bad[:4],)
                 "print('RESULT nbytes', mv.nbytes)\n"
                 "assert mv.nbytes == 16 * 2**27, 'view->len wrong'\n",
                 'assert')
-    if fn in ('matrix_ass_subscr', 'matrix_ass_subscr_noalias',
-              'matrix_subscr') and ob.kind == 'nooverflow' and \
-            'MAT_LGT(Il)*MAT_LGT' in ob.text:
-        return ("A = matrix(0.0, (2,2))\n"
-                "try:\n"
-                "    A[[0]*65536, [0]*65536] = [1.0]\n"
-                "except TypeError as e:\n"
-                "    print('RESULT', e)\n", 'ubsan')
-    if fn in ('matrix_ass_subscr', 'matrix_ass_subscr_noalias') and \
-            ob.kind == 'extern-requires':
-        return ("A = matrix([1, 0] + [0]*6)\n"
-                "A[A] = 1000000\n"
-                "B = matrix([1, 0, 1, 0, 1, 0], (3,2))\n"
-                "B[B[:3], 0] = 1000000\n"
-                "print('RESULT done')\n", 'valgrind')
-    if fn in ('matrix_ass_subscr', 'matrix_ass_subscr_noalias',
-              'matrix_subscr') and ob.kind in ('footprint', 'index-address'):
-        # oracle: the documented element, and only it, is read / written
-        return ('''
-def wrap(i, m): return i if i >= 0 else m + i
-bad = []
-for (r, c) in ((2, 5), (5, 2), (1, 3), (3, 1)):
-    for i in range(-r, r):
-        for j in range(-c, c):
-            want = wrap(i, r) + wrap(j, c) * r
-            for form in ('int', 'list', 'matrix', 'mixed'):
-                A = matrix(0.0, (r, c))
-                I = {'int': i, 'list': [i], 'matrix': matrix([i]),
-                     'mixed': [i]}[form]
-                J = {'int': j, 'list': [j], 'matrix': matrix([j]),
-                     'mixed': j}[form]
-                for rhs in (7.0, matrix([7.0])):
-                    A = matrix(0.0, (r, c))
-                    A[I, J] = rhs
-                    got = [k for k in range(r * c) if A[k] != 0.0]
-                    if got != [want]:
-                        bad.append(('set', (r, c), form, i, j, got, want))
-                B = matrix([float(k) for k in range(r * c)], (r, c))
-                v = B[I, J]
-                v = v if isinstance(v, float) else v[0]
-                if v != float(want):
-                    bad.append(('get', (r, c), form, i, j, v, want))
-    n = r * c
-    for k in range(-n, n):
-        for K in (k, [k], matrix([k])):
-            A = matrix(0.0, (r, c))
-            A[K] = 7.0
-            got = [q for q in range(n) if A[q] != 0.0]
-            if got != [wrap(k, n)]:
-                bad.append(('set1', (r, c), k, got))
-print('RESULT', bad[:5])
-assert not bad, 'indexed access touched another element: %r' % (bad[:3],)
-''', 'assert')
     if fn == 'Matrix_NewFromPyBuffer' and ob.kind == 'nooverflow':
         # an explicit (int) cast of a Py_ssize_t extent: not reported by the
         # sanitizer; the oracle is the size of the result
